@@ -233,7 +233,7 @@ def main():
             "enable": "no source hooks are needed: checks import /repo/src as it is (PYTHONPATH=/repo/src) and "
             "observe it through scripted callbacks, spies and a virtual clock; REDRESS_VERIF=1 is exported but unused",
             "baseline_off_cmd": "cd /repo && /venv/bin/python -m pytest -ra -q -p no:cacheprovider --timeout=900",
-            "source_commits": ["7959b97", "4805882", "e37d3df", "a10e77c", "7a1aae8"],
+            "source_commits": ["7959b97", "4805882", "e37d3df", "a10e77c", "7a1aae8", "844555a", "ca75464"],
             "add_only": True,
         },
         "engines": [
